@@ -4,4 +4,5 @@ pub mod imp;
 pub mod oracle;
 pub mod props;
 pub mod selftest;
+pub mod fuzzapi;
 pub mod bld;
